@@ -11,6 +11,8 @@ import SpsdkVerif.Proofs.MbiPlain
 import SpsdkVerif.Proofs.MbiSignedV1
 import SpsdkVerif.Proofs.MbiSignedV21
 import SpsdkVerif.Proofs.MbiEncrypted
+import SpsdkVerif.Proofs.MbiMcxc
+import SpsdkVerif.Proofs.MbiVx
 
 namespace SpsdkVerif.Properties.C01
 open SpsdkVerif SpsdkVerif.Misc SpsdkVerif.Mbi
@@ -160,6 +162,76 @@ theorem total_len_sum {co : CryptoOps} {env : Env} {c : Cls} {cfg : Cfg} {signer
   · exact Mbi.total_len_sum_signedV1 h hf
   · exact Mbi.total_len_sum_signedV21 h hf
   · exact Mbi.total_len_sum_encrypted h hf
+
+/-! ## images without IVT: mcxc (BCA / FCF blocks inside the application) and mc56 / mwct "Vx" images (Model/MbiVx.lean) -/
+
+/-- every generated class without IVT is either an mc56 class (BCA table) or THE mcxc class -/
+theorem mcxc_classes_known :
+    ∀ c ∈ allClasses, c.hasAttr .ivt_table = true ∨ c.has .Mbi_MixinBcaTable = true ∨ mcxcClass c = true := Mbi.mcxc_classes_known
+
+/-- mcxc: parse(export(x)) = x, the image is the application with the BCA / FCF blocks in place (nothing else touched, same
+    length), and re-exporting the parsed image gives the same bytes -/
+theorem parse_export_mcxc (co : CryptoOps) (env : Env) (c : Cls) (cfg : Cfg) (signer : Signer) (dek : Option Mbi.Bytes)
+    (hc : mcxcClass c = true) (hw : mcxcCfgWF cfg = true) :
+    ∃ e, exportImage co c cfg signer = .ok e
+      ∧ parseImage co env c dek e = .ok (canon c cfg dek)
+      ∧ e.length = (appData cfg).length
+      ∧ slice e fcfOffset (fcfOffset + fcfSize) = cfg.fcf.getD []
+      ∧ (∀ b, cfg.bca = some b → slice e bcaOffset (bcaOffset + bcaSize) = b)
+      ∧ (∀ i, ¬ (fcfOffset ≤ i ∧ i < fcfOffset + fcfSize) → ¬ (cfg.bca.isSome ∧ bcaOffset ≤ i ∧ i < bcaOffset + bcaSize) →
+            e[i]? = (appData cfg)[i]?)
+      ∧ exportImage co c (canon c cfg dek).toCfg signer = .ok e := Mbi.parse_export_mcxc co env c cfg signer dek hc hw
+
+/-- Vx: the exporters write only into the tool-owned byte ranges; elsewhere the image is the (4-padded) application -/
+theorem vx_export_frame (co : CryptoOps) (k : Vx.Kind) (cfg : Vx.Cfg) (signer : Signer) (hw : Vx.cfgWF k cfg = true)
+    (hs : ∀ m, (signer m).length = vxImgBcaOffset - vxImgSignatureOffset)
+    (hh : ∀ m, (co.hash .sha256 m).length = vxImgDigestSize) :
+    ∃ e, Vx.exportImage co k cfg signer = .ok e
+      ∧ e.length = (if cfg.justHeader then vxImgDukBlockOffset else (align4 cfg.app).length)
+      ∧ ∀ i, i < e.length → Vx.owned k cfg i = false → e[i]? = (align4 cfg.app)[i]? := Vx.vx_export_frame co k cfg signer hw hs hh
+
+/-- Vx: parse(export(x)) gives the image back as the application, with life cycle and firmware version -/
+theorem vx_parse_export (co : CryptoOps) (k : Vx.Kind) (cfg : Vx.Cfg) (signer : Signer) (hw : Vx.cfgWF k cfg = true)
+    (hs : ∀ m, (signer m).length = vxImgBcaOffset - vxImgSignatureOffset)
+    (hh : ∀ m, (co.hash .sha256 m).length = vxImgDigestSize) :
+    ∃ e, Vx.exportImage co k cfg signer = .ok e
+      ∧ Vx.parseImage k e = .ok ⟨e, (if cfg.lifecycle = 0xFF then ((align4 cfg.app).getD vxImgFcfLifecycleOffset 0).toNat else cfg.lifecycle),
+                                  (if k = .signed then cfg.fwVersion else 0)⟩ := Vx.vx_parse_export co k cfg signer hw hs hh
+
+/-- Vx CRC images: the BCA words describe the data part of the emitted image -/
+theorem vx_crc_describes (co : CryptoOps) (cfg : Vx.Cfg) (signer : Signer) (hw : Vx.cfgWF .crc cfg = true) :
+    ∃ e, Vx.exportImage co .crc cfg signer = .ok e
+      ∧ rd32 e (vxImgBcaOffset + 4) = vxImgDataStart
+      ∧ rd32 e (vxImgBcaOffset + 8) = (e.drop vxImgDataStart).length
+      ∧ rd32 e (vxImgBcaOffset + 12) = crc32m (e.drop vxImgDataStart) := Vx.vx_crc_describes co cfg signer hw
+
+/-- Vx signed images: BCA words, digest and signature describe / cover exactly header + BCA + data of the emitted image -/
+theorem vx_signed_describes (co : CryptoOps) (cfg : Vx.Cfg) (signer : Signer) (hw : Vx.cfgWF .signed cfg = true)
+    (hj : cfg.justHeader = false) (hs : ∀ m, (signer m).length = vxImgBcaOffset - vxImgSignatureOffset)
+    (hh : ∀ m, (co.hash .sha256 m).length = vxImgDigestSize) :
+    ∃ e, Vx.exportImage co .signed cfg signer = .ok e
+      ∧ (rd32 e vxImgBcaImageLengthOffset : Int) = (e.length : Int) - vxImgDataStart + (vxImgDigestOffset + (vxImgFcfOffset - vxImgBcaOffset))
+      ∧ rd32 e vxImgBcaFwVersionOffset = cfg.fwVersion
+      ∧ slice e vxImgDigestOffset vxImgSignatureOffset = co.hash .sha256 (Vx.dataToSign e)
+      ∧ slice e vxImgSignatureOffset vxImgBcaOffset = signer (Vx.dataToSign e)
+      ∧ slice e vxImgIskOffset (vxImgIskOffset + cfg.cert.length) = cfg.cert
+      ∧ (cfg.addHash = true → slice e vxImgIskHashOffset (vxImgIskHashOffset + vxImgIskHashSize) = cfg.certHash) :=
+  Vx.vx_signed_describes co cfg signer hw hj hs hh
+
+/-- Vx: re-export of the parsed image reproduces it (outside the signature slot for signed images) -/
+theorem vx_reexport (co : CryptoOps) (k : Vx.Kind) (cfg : Vx.Cfg) (signer signer' : Signer) (hw : Vx.cfgWF k cfg = true)
+    (hj : cfg.justHeader = false)
+    (hs : ∀ m, (signer m).length = vxImgBcaOffset - vxImgSignatureOffset)
+    (hs' : ∀ m, (signer' m).length = vxImgBcaOffset - vxImgSignatureOffset)
+    (hh : ∀ m, (co.hash .sha256 m).length = vxImgDigestSize) :
+    ∃ e e', Vx.exportImage co k cfg signer = .ok e ∧ Vx.exportImage co k { cfg with app := e } signer' = .ok e'
+      ∧ e'.length = e.length
+      ∧ ∀ i, ¬ (k = .signed ∧ vxImgSignatureOffset ≤ i ∧ i < vxImgBcaOffset) → e'[i]? = e[i]? :=
+  Vx.vx_reexport co k cfg signer signer' hw hj hs hs' hh
+
+/-- a Vx configuration satisfying the hypotheses (non-vacuity) -/
+example : Vx.cfgWF .signed { app := List.replicate 3100 7, lifecycle := 0x90, fwVersion := 5, cert := List.replicate 136 1,
+                             certHash := List.replicate 16 2 } = true := by decide +kernel
 
 /-! ## non-vacuity: a concrete non-trivial configuration satisfies the hypotheses (decided) -/
 
